@@ -242,6 +242,7 @@ func c12Explore(src *choice.Src) *core.Result {
 		return res
 	}
 	defer sb.close()
+	res.Scrub(sb.root)
 	level := sb.root
 	for i := 1; i <= 4; i++ {
 		level = filepath.Join(level, fmt.Sprintf("l%d", i))
